@@ -48,3 +48,12 @@ check("C15", "whole-program mutation-site enumeration with mypy receiver classif
       "Static: of 267 mutation sites none writes a module-/class-level object; the 10 API-reachable writes to long-lived Parser/Rule/Expression/Optimizer objects outside constructors each match a named single-field exemption whose premise is re-checked on every run; fresh ParserState and pair list per parse(); per-instance initialisation of every per-parse field; no mutable default argument; generated parse() keeps all mutable state in locals.",
       "Thread schedules are covered only through absence of shared mutable writes; atomicity of idempotent cache writes assumed. Flow- and context-insensitive over-approximation.", "§3.4, §4 C15")
 NOT_APPLICABLE.pop("C15", None)
+
+check("C10", "regular-language equivalence with shortest witnesses (regex constants read with re._parser vs exact-or-declined PEG->regular translation of meta.pest productions, product DFA over all code points); table and structure rules over the token parser's AST",
+      "Static: 19 token-language comparisons are exact over U+0000..U+10FFFF (scanner constant == meta-grammar production, witness string on mismatch); keyword shadowing (26 inclusion queries); escape tables scanner == decoder == meta-grammar with pest's decoded values; every emitted token kind has a dispatch arm; structure table (token kind -> Expression class, argument provenance and order, precedence constants and loop shape, modifier symbols); structural facts of the recursive descent against term / postfix / slice / doc productions.",
+      "Oracle: tests/grammars/meta.pest as shipped (digest recorded). Block comments and comment extents are not compared as languages. (d) is a hand-derived list of structural facts, not a full grammar extraction; cursor arithmetic of the decoder is C12's declined part.", "§4 C10")
+check("C18", "def-use rules over PrattParser.parse_expr (table reads, dominance of the precedence comparison over token consumption, symbolic evaluation of the recursion bound per associativity)",
+      "Static: each declared table is read; infix and postfix precedences are compared with min_prec before the operator is consumed; prefix and infix operands are parsed with a bound derived from the declared precedence; the recursion bound evaluates to prec+0 / prec+1 for right / left associativity under the `<` break test; loop exits and builder argument order; Stream.next/peek shape.",
+      "Completeness of the rule set for every token stream is not proved.", "§4 C18")
+for _p in ("C10", "C18"):
+    NOT_APPLICABLE.pop(_p, None)
